@@ -571,6 +571,26 @@ impl AggregateState {
     }
 }
 
+/// Verification-only handle (`cfg(kani)`) on the private per-group aggregate state machine.
+#[cfg(kani)]
+pub struct VerifAggregateState(AggregateState);
+
+#[cfg(kani)]
+impl VerifAggregateState {
+    /// Initial state of `function` (no DISTINCT, default percentile).
+    pub fn new(function: AggregateFunction) -> Self {
+        Self(AggregateState::new(function, false, None))
+    }
+    /// Feeds one value, as the aggregate operators do per row.
+    pub fn update(&mut self, value: Option<Value>) {
+        self.0.update(value);
+    }
+    /// The aggregate's result.
+    pub fn finalize(&self) -> Value {
+        self.0.finalize()
+    }
+}
+
 /// Convert a value to f64 for numeric aggregations.
 /// Supports RDF values stored as strings by attempting numeric parsing.
 fn value_to_f64(value: &Value) -> Option<f64> {
